@@ -83,11 +83,12 @@ func (k *Kernel) procMain(p *Proc) {
 	}()
 
 	// adopt: tell the controller who we are, then wait to be scheduled
-	raceDisable()
-	a := arrival{kind: mAdopt, goid: curGoid(), point: "proc.start", proc: p.idx, cancel: cancel, resume: make(chan resumeMsg)}
+	// (not race-transparent on purpose: the controller later calls cancel, and the
+	// creation of the context must happen-before that)
+	a := arrival{kind: mAdopt, gptr: getg(), point: "proc.start", proc: p.idx, cancel: cancel, resume: make(chan resumeMsg)}
+	a.goid, _ = goidAndParent()
 	k.inbox <- a
 	<-a.resume
-	raceEnable()
 
 	session := query.NewSession()
 	session.SetStdout(stdout)
